@@ -3,6 +3,8 @@
 package main
 
 import (
+	"github.com/google/inverting-proxy/agent/utils"
+	"os"
 	"bufio"
 	"context"
 	"encoding/json"
@@ -173,6 +175,13 @@ func TestVerifC05(t *testing.T) {
 	}))
 	defer proxySrv.Close()
 
+	// a fake GCE metadata server, so that the VM-identity transport is in place
+	md := httptest.NewServer(http.HandlerFunc(func(w http.ResponseWriter, r *http.Request) {
+		w.Header().Set("Metadata-Flavor", "Google")
+		w.Write([]byte("verif-vm-identity-token"))
+	}))
+	defer md.Close()
+	os.Setenv("GCE_METADATA_HOST", strings.TrimPrefix(md.URL, "http://"))
 	*proxy = proxySrv.URL + "/"
 	*host = strings.TrimPrefix(backend.URL, "http://")
 	*forwardUserID, *stripCredentials = false, false
@@ -195,7 +204,8 @@ func TestVerifC05(t *testing.T) {
 			t.Fatal(err)
 		}
 		ctx, cancel := context.WithCancel(context.Background())
-		client := &http.Client{Timeout: 120 * time.Second}
+		// the proxy-facing client as main() builds it on a GCE VM: every request passes through the VM-identity transport
+		client := &http.Client{Timeout: 120 * time.Second, Transport: utils.RoundTripperWithVMIdentity(ctx, http.DefaultTransport, *proxy, false)}
 		go pollForNewRequests(ctx, client, hp, "verif-backend")
 		var ids []string
 		cnt := n
